@@ -317,4 +317,81 @@ example : (Font.deser (exFont.ser none none) {}).error = none ∧
 example : (Font.deser (exFont.ser none none) {}).propagation.length = 24 ∧
     (Font.deser (exFont.ser none none) {}).propagation.all (·.2) = true := by decide +kernel
 
+/-! ## 6. Derived data of the rebuilt layers: the unicode data, whoever looks at the new object, and whenever
+
+`layer.unicodeData` (and `font.unicodeData`, the default layer's) is an object that is built from the glyphs on
+first access and told about every later change.  On the deserialization path the glyph is filled BEFORE the
+layer observes it, so the only thing that tells an existing object about the glyph is the end of
+`_insertGlyph`.  "New object" does not mean "object nobody has looked at": `t.ucache = some []` is a new layer
+whose (empty) unicode data were read before the data came in, `t.peekAt` is the schedule of an observer of
+`Layer.GlyphAdded` that reads them while the glyphs come in. -/
+
+/-- Layer: whatever the new layer's past (unicode data never read, or read while it was still empty) and
+whatever the observers' schedule, after the rebuild `layer.unicodeData` lists exactly the glyphs of the
+ORIGINAL that have unicodes, each with its unicodes — and the stored object, if there is one, is that list. -/
+theorem rebuilt_unicodeData (ly t : Layer) (ht : t.Fresh) (hw : ly.WF) (hc : t.ucache = none ∨ t.ucache = some []) :
+    (Layer.deser (ly.ser none none) t).unicodeData = cmapOfGlyphs ly.glyphs ∧
+    (Layer.deser (ly.ser none none) t).CacheOK := by
+  rw [layer_rebuild ly t ht hw]
+  exact ⟨layer_rebuiltFrom_unicodeData ly t hc, layer_rebuiltFrom_cacheOK ly t hc⟩
+
+/-- … in particular when somebody looked first, the object that was built then (and that every later
+`font.unicodeData[…]` answers from) is complete: nothing relies on it being rebuilt lazily. -/
+theorem rebuilt_unicodeData_looked_at_first (ly t : Layer) (ht : t.Fresh) (hw : ly.WF) (hc : t.ucache = some []) :
+    (Layer.deser (ly.ser none none) t).ucache = some (cmapOfGlyphs ly.glyphs) := by
+  rw [layer_rebuild ly t ht hw]
+  exact layer_rebuiltFrom_built ly t hc
+
+/-- Layer set: every rebuilt layer's unicode data say what the original layer's glyphs say, for every schedule
+of the observers on the font's dispatcher. -/
+theorem rebuilt_unicodeData_layerSet (ls t : LayerSet) (ht : t.Fresh) (hw : ls.WF) :
+    (LayerSet.deser (ls.ser none none) t).layers.map (fun nl => (nl.1, nl.2.unicodeData)) =
+      ls.layers.map (fun nl => (nl.1, cmapOfGlyphs nl.2.glyphs)) := by
+  rw [layerSet_rebuild ls t ht hw]
+  exact layerSet_rebuiltFrom_unicodeData ls t
+
+/-- Font: the same for every layer of the rebuilt font (so also for `font.unicodeData`, the default layer's),
+whatever observers hang on the new font's dispatcher (`t.layers.peekAt`). -/
+theorem rebuilt_unicodeData_font (f t : Font) (ht : t.Fresh) (hw : f.WF) :
+    (Font.deser (f.ser none none) t).layers.layers.map (fun nl => (nl.1, nl.2.unicodeData)) =
+      f.layers.layers.map (fun nl => (nl.1, cmapOfGlyphs nl.2.glyphs)) := by
+  rw [font_rebuild f t ht hw]
+  exact layerSet_rebuiltFrom_unicodeData f.layers _
+
+/-- … "new" matters here as well: a target whose unicode data already list something (an object with
+content, outside the property) keeps that entry — nothing on this path rebuilds the object. -/
+theorem unicodeData_needs_a_new_layer :
+    ¬ ∀ ly t : Layer, t.Fresh → ly.WF → (Layer.deser (ly.ser none none) t).unicodeData = cmapOfGlyphs ly.glyphs := by
+  intro h
+  have := h {} { ucache := some [("s:ghost", "[1]")] } ⟨rfl, rfl⟩
+    ⟨by decide, by decide, by decide, (fun _ h => nomatch h), (fun _ h => nomatch h)⟩
+  revert this
+  decide
+
+/-- a layer with two encoded glyphs and one without unicodes -/
+def exLayer : Layer :=
+  { name := "s:public.default",
+    glyphs := [("s:A", exGlyph), ("s:B", { exShallow with name := "s:B", unicodes := "[66, 937]" }),
+               ("s:A.alt", { name := "s:A.alt" })] }
+
+example : exLayer.WF := by
+  refine ⟨by decide, by decide, by decide, by decide, ?_⟩
+  intro ng hng
+  simp only [exLayer, List.mem_cons, List.mem_nil_iff, or_false] at hng
+  rcases hng with rfl | rfl | rfl <;> exact ⟨by decide, by decide, by decide, by decide, by decide⟩
+example : cmapOfGlyphs exLayer.glyphs = [("s:A", "[65]"), ("s:B", "[66, 937]")] := by decide
+/-- nobody looks: no object is kept, the first read builds it -/
+example : (Layer.deser (exLayer.ser none none) {}).ucache = none ∧
+    (Layer.deser (exLayer.ser none none) {}).unicodeData = [("s:A", "[65]"), ("s:B", "[66, 937]")] := by decide +kernel
+/-- looked at first: the object exists and is told about every glyph -/
+example : (Layer.deser (exLayer.ser none none) { ucache := some [] }).ucache =
+    some [("s:A", "[65]"), ("s:B", "[66, 937]")] := by decide +kernel
+/-- an observer reads at the first `Layer.GlyphAdded` (inside a font): built then, told about the rest -/
+example : (Layer.deser (exLayer.ser none none) { parent := true, observed := true, disp := true, peekAt := [1] }).ucache =
+    some [("s:A", "[65]"), ("s:B", "[66, 937]")] := by decide +kernel
+/-- the same at font level: the observers of the new font watch the layers of the new layer set -/
+example : (Font.deser (exFont.ser none none) { layers := { parent := true, observed := true, disp := true, peekAt := [1] } }
+    ).layers.layers.map (fun nl => (nl.1, nl.2.ucache)) =
+    [("s:public.default", some [("s:A", "[65]")]), ("s:bg", some [("s:A", "[65]")])] := by decide +kernel
+
 end DefconModel.Props.C14
